@@ -10,9 +10,14 @@ from pv.formula import Formula
 from pv.loops import loop_shape, no_early_exit
 from checks import lehmann as lh
 from checks.lehmann import fld, THIS
+from checks.c20 import fact_str
 
 GFP = "Pomerol::GreensFunctionPart"
 GF = "Pomerol::GreensFunction"
+
+
+def key_contains_any(shp, key):
+    return any(isinstance(shp.get(x), tuple) and key_contains(shp[x], lambda y: y == key) for x in ("start", "bound"))
 
 
 def body(chk, db, cfgname):
@@ -139,16 +144,83 @@ def body(chk, db, cfgname):
         fn_ = db.fn("Pomerol::GFContainer::" + nm)
         fctx = Ctx(fn_, db)
         site = "Pomerol::GFContainer::" + nm
-        good = False
+        from pv.loops import covers, is_element
+        from pv.paths import every_iteration
+        em_ = fld("Pomerol::IndexContainer2::ElementsMap")
+        want_call = "Pomerol::GreensFunction::" + ("compute" if nm == "computeAll" else "prepare")
+        verdict, why, where = "unknown", "no loop over ElementsMap that calls %s() on its elements was recognised" % want_call.split("::")[-1], fn_.loc()
         for j, n in fn_.walk(fn_.body):
-            if n["k"] == "for":
+            if n["k"] in ("for", "while", "forrange"):
                 shp = loop_shape(fn_, fctx, j)
-                if shp["kind"] == "iter" and shp["bound"] == fld("Pomerol::IndexContainer2::ElementsMap") and no_early_exit(shp):
-                    good = True
-        if good:
-            r6.ok(site, fn_.loc(), "visits every element of ElementsMap", cfgname)
+                if not key_contains_any(shp, em_):
+                    continue
+                if not covers(shp, em_):
+                    verdict, why, where = "bad", "the loop does not visit every element of ElementsMap", fn_.loc(j)
+                    continue
+                calls_ = [jj for jj, nn in fn_.walk(shp["body"]) if nn["k"] == "call" and strip_targs(nn.get("cname") or "") == want_call]
+                if not calls_:
+                    continue
+                ev = every_iteration(fn_, j, calls_[0])
+                if ev is True:
+                    verdict, why, where = "ok", "", fn_.loc(j)
+                elif ev is False:
+                    fa_ = guard_facts(fn_, fctx).get(fn_.cfg.pos1(calls_[0]), frozenset())
+                    if any(x[0] in ("true", "false") and key_contains(x[1], lambda y: (y[0] == "mcall" and y[1].endswith("::isVanishing")) or (y[0] == "field" and y[1].endswith("::Vanishing"))) for x in fa_):
+                        verdict, why, where = "bad", "%s() is called only for elements whose Vanishing flag is already cleared, but the flag starts as true and only prepare() clears it: an element that entered the container by a cache miss / set() / fill() is never computed and evaluates to 0" % want_call.split("::")[-1], fn_.loc(calls_[0])
+                    else:
+                        verdict, why, where = "unknown", "%s() is skipped for some elements under a condition that is not analysed" % want_call.split("::")[-1], fn_.loc(calls_[0])
+        if verdict == "ok":
+            r6.ok(site, where, "visits every element of ElementsMap and calls %s() on each" % want_call.split("::")[-1], cfgname)
+        elif verdict == "bad":
+            r6.bad(site, where, why, cfgname)
         else:
-            r6.bad(site, fn_.loc(), "does not visit every element of ElementsMap", cfgname)
+            r6.unknown(site, where, why, cfgname)
+    # default component set: prepareAll() without arguments must create every pair (i, j)
+    enum_ = [x for x in db.fns.values() if x.qn.startswith("Pomerol::IndexContainer2<Pomerol::GreensFunction, Pomerol::GFContainer>::enumerateInitialIndices") and x.body is not None and x.body >= 0]
+    site = "Pomerol::IndexContainer2::enumerateInitialIndices"
+    if not enum_:
+        raise AnalysisBroken("IndexContainer2<GreensFunction,GFContainer>::enumerateInitialIndices is not instantiated in the analysed units")
+    e_ = enum_[0]
+    with r6.guard(site, e_.loc(), cfgname):
+        from pv.paths import every_iteration
+        from pv.loops import enclosing_loops
+        ectx = Ctx(e_, db)
+        size_keys = (("mcall", "Pomerol::IndexClassification::getIndexSize", fld("Pomerol::IndexContainer2::IndexInfo")),
+                     ("field", "Pomerol::IndexClassification::IndexSize", fld("Pomerol::IndexContainer2::IndexInfo")))
+        ins = [j for j, n in e_.walk(e_.body) if n["k"] == "call" and n.get("ck") == "method" and strip_targs(n.get("cname") or "").split("::")[-1] in ("insert", "emplace")]
+        if len(ins) != 1:
+            raise AnalysisBroken("expected one insertion into the set of index pairs, found %d" % len(ins))
+        I = ins[0]
+        Ls = enclosing_loops(e_, I)
+        shapes = [loop_shape(e_, ectx, L) for L in Ls]
+        full = [s_ for s_ in shapes if s_["kind"] == "index" and s_["start"] == ("lit", 0) and s_["rel"] == "<" and ectx.key_full(s_["bound"]) in size_keys and not s_["exits"]] if hasattr(ectx, "key_full") else None
+        if full is None:
+            def _full(s_):
+                b = s_["bound"]
+                if b[0] == "var" and ectx.decls.get(b[1], {}).get("init") is not None and ectx.single_assignment(b[1]):
+                    b = ectx.key(ectx.decls[b[1]]["init"])
+                while b[0] == "cast":
+                    b = b[2]
+                return s_["kind"] == "index" and s_["start"] == ("lit", 0) and s_["rel"] == "<" and b in size_keys and not s_["exits"]
+            full = [s_ for s_ in shapes if _full(s_)]
+        ak = ectx.key(e_.nodes[I]["args"][0])
+        while ak[0] in ("cast",) or (ak[0] == "ctor" and len(ak) == 3 and ak[2][0] == "ctor"):
+            ak = ak[2]
+        vars_ = [a[:2] for a in ak[2:]] if ak[0] == "ctor" else []
+        if len(shapes) != 2 or len(full) != 2:
+            partial = [s_ for s_ in shapes if s_ not in full]
+            if len(shapes) == 2 and all(s_["kind"] == "index" for s_ in shapes):
+                r6.bad(site, e_.loc(partial[0]["node"]), "the default set of components does not run over all pairs 0 <= i, j < IndexSize (loop `%s`)" % e_.s(partial[0]["node"])[:60], cfgname)
+            else:
+                r6.unknown(site, e_.loc(), "the enumeration of the default components is not a double loop over [0, IndexSize) (form not analysed)", cfgname)
+        elif vars_ != [shapes[1]["var"][:2], shapes[0]["var"][:2]] and vars_ != [shapes[0]["var"][:2], shapes[1]["var"][:2]]:
+            r6.bad(site, e_.loc(I), "the inserted combination is not (Index1, Index2) of the two loops", cfgname)
+        elif every_iteration(e_, Ls[0], I) is True and every_iteration(e_, Ls[1], Ls[0]) is True:
+            r6.ok(site, e_.loc(I), "every pair (i, j), 0 <= i, j < IndexSize, is a default component", cfgname)
+        else:
+            fa_ = guard_facts(e_, ectx).get(e_.cfg.pos1(I), frozenset())
+            r6.bad(site, e_.loc(I), "pairs are left out of the default component set (kept only when %s): a component that is not created by prepareAll() is built unprepared on first access and evaluates to 0, although nothing makes G_ij vanish for the omitted pairs in general" % (
+                " and ".join(sorted(fact_str(x) for x in fa_))[:200] or "a condition holds"), cfgname)
     ops_ = [x for x in db.fns.values() if x.qn.startswith("Pomerol::IndexContainer2<Pomerol::GreensFunction, Pomerol::GFContainer>::operator()") and len(x.params) == 1]
     for o in ops_:
         octx = Ctx(o, db)
